@@ -21,6 +21,7 @@ func init() {
 			for _, t := range []string{"ChannelID", "ChannelStages", "ChannelStage", "Log"} {
 				codecAgreement(r, "C06.1", "", t)
 			}
+			c06NodeCodec(r)
 			c06Reads(r)
 			c06Accessors(r)
 			c06Writers(r, f)
@@ -159,4 +160,55 @@ func c06Cleanup(r *R, f *core.FSM) {
 		}
 	}
 	_ = core.Short
+}
+
+// c06NodeCodec (C06.1): IPLD nodes stored in the record are written in their
+// representation form (what the decoder rebuilds), null for none.
+func c06NodeCodec(r *R) {
+	fn := r.fn("C06.1", "channels/internal", "CborGenCompatibleNode", "MarshalCBOR")
+	if fn != nil {
+		enc := r.p.Is("github.com/ipld/go-ipld-prime/codec/dagcbor.Encode")
+		tn := "sn.Node.(github.com/ipld/go-ipld-prime/schema.TypedNode)?"
+		n := 0
+		for _, pt := range r.pathsOf("C06.1", fn) {
+			if pt.End != "return" {
+				continue
+			}
+			n++
+			idx := pt.Index(enc)
+			key := fmt.Sprintf("node-marshal/path#%d", n)
+			if idx < 0 || pt.Count(enc) != 1 {
+				r.c.Bad("C06.1", key, r.p.Pos(fn.Pos()), "a stored node is not encoded exactly once: "+pt.Describe())
+				continue
+			}
+			got := pt.ArgDesc(pt.Evs[idx], 0)
+			want := "github.com/ipld/go-ipld-prime/datamodel.Null"
+			switch {
+			case pt.Has("+sn==nil") || pt.Has("+sn.Node==nil"):
+			case pt.Has("+" + tn + "#1"):
+				want = tn + "#0.Representation()"
+			case pt.Has("-" + tn + "#1"):
+				want = "sn.Node"
+			default:
+				want = "<typed nodes not distinguished>"
+			}
+			r.c.Check(got == want && pt.ArgDesc(pt.Evs[idx], 1) == "w", "C06.1", key, r.p.Pos(fn.Pos()), "encodes "+want,
+				"a stored IPLD node is encoded as "+got+" where "+want+" is required (typed nodes must be written in their representation form, otherwise the reopened voucher/selector differs from what was recorded)")
+		}
+		r.c.Floor("C06.1", n, 3, "paths of CborGenCompatibleNode.MarshalCBOR")
+	}
+	un := r.fn("C06.1", "channels/internal", "CborGenCompatibleNode", "UnmarshalCBOR")
+	if un != nil {
+		n := 0
+		for _, pt := range r.pathsOf("C06.1", un) {
+			if pt.End != "return" || pt.RetDesc(0) != "nil" {
+				continue
+			}
+			n++
+			st := pt.StoresTo("sn.Node")
+			ok := len(st) == 1 && strings.HasSuffix(st[0], ".Build()") && pt.Count(r.p.Is("github.com/ipld/go-ipld-prime/codec/dagcbor.Decode")) == 1
+			r.c.Check(ok, "C06.1", fmt.Sprintf("node-unmarshal/path#%d", n), r.p.Pos(un.Pos()), "decoded node stored", "UnmarshalCBOR succeeds without storing the decoded node")
+		}
+		r.c.Floor("C06.1", n, 1, "success paths of CborGenCompatibleNode.UnmarshalCBOR")
+	}
 }
